@@ -301,6 +301,27 @@ where
     }
 }
 
+/// Verification hook: lets proof harnesses run the recursive subdivision
+/// behind [`BezierSpline::approximate`] with an explicit depth budget.
+/// Compiled only under `cargo kani`.
+#[cfg(kani)]
+impl<T> BezierSpline<T>
+where
+    T: Affine<Diff: Linear<Scalar = f32> + Clone> + Clone,
+{
+    pub fn verif_approximate_to_depth(
+        &self,
+        max_dep: u32,
+        halt: impl Fn(&T::Diff) -> bool,
+    ) -> Vec<T> {
+        let len = self.0.len();
+        let mut res = Vec::with_capacity(3 * len);
+        self.do_approx(0.0, 1.0, max_dep, &halt, &mut res);
+        res.push(self.0[len - 1].clone());
+        res
+    }
+}
+
 #[cfg(test)]
 mod tests {
     use alloc::vec;
